@@ -509,19 +509,49 @@ def plan(tier, rng, sl, nslices, stats):
         for x, a in zip(nts, word):
             rules.append(("end", x, a))
         top = nts[0]
+        eps_at = rng.choice([None, None, None, 0, 0, 1]) if len(word) > 1 else rng.choice([None, None, 0])
         for i, x in enumerate(nts[1:]):
             new_top = "J%d" % i
+            if eps_at == i:
+                # the empty word derived in the MIDDLE of the word (or before its first letter)
+                rules.append(("dup", "M%d" % i, "E", x) if rng.random() < 0.5 else ("dup", "M%d" % i, x, "E"))
+                x = "M%d" % i
             rules.append(("dup", new_top, top, x))
             top = new_top
-        if rng.random() < 0.4:
+        r_ = rng.random()
+        if r_ < 0.3:
             rules.append(("prod", "S", "P", "f"))
             rules.append(("cons", "f", "P", top))
-        else:
+            if eps_at is not None and len(word) == 1:
+                rules[-1] = ("cons", "f", "P", "T0")
+                rules.append(("dup", "T0", "E", top))
+        elif r_ < 0.7:
             rules.append(("dup", "S", top, "E"))
+        else:
+            rules.append(("dup", "S", "E", top))          # ... before the first letter
+        if any("E" in r[2:] for r in rules):
             rules.append(("end", "E", "epsilon"))
         fa = gfa.random_case(rng, max_states=3, max_syms=2, kinds=("enfa",), vcs=["int", "str"])
         fa["trans"] = fa["trans"][:5]
-        if rng.random() < 0.6 and fa["n"]:
+        if rng.random() < 0.4:
+            # the automaton reads the word along a path of states of its own, and several of these states are ALSO
+            # left through an epsilon move to another state (the run has to stay there while the empty word is derived)
+            n_ = len(word) + 1 + rng.randrange(2)
+            tr = [[i, "ab".index(a), i + 1] for i, a in enumerate(word)]
+            if word and rng.random() < 0.2:
+                tr[rng.randrange(len(tr))][1] ^= 1           # ... or it reads another word
+            for i in range(n_):
+                if rng.random() < 0.6 and n_ > 1:
+                    tr.append([i, -1, rng.choice([x for x in range(n_) if x != i])])
+            fa = dict(fa, n=n_, k=2, start=[0], final=[len(word)], trans=tr)
+        elif rng.random() < 0.3 and fa["n"] >= 2:
+            # a start (or final) state that is also left through an epsilon move to ANOTHER state
+            pool_ = (fa.get("start") or [0]) if rng.random() < 0.5 else (fa.get("final") or [0])
+            s0 = rng.choice(pool_)
+            fa["trans"].append([s0, -1, rng.choice([x for x in range(fa["n"]) if x != s0])])
+            fa["trans"].append([s0, rng.randrange(2), rng.randrange(fa["n"])])
+            fa["trans"] = [list(t) for t in {tuple(t) for t in fa["trans"]}]
+        elif rng.random() < 0.6 and fa["n"]:
             s0 = rng.randrange(fa["n"])
             fa["trans"].append([s0, rng.randrange(2), s0])          # a symbol read on a self loop
             fa["trans"].append([s0, -1, rng.randrange(fa["n"])])    # ... left through an epsilon move
